@@ -1,7 +1,7 @@
 (* C04 / C06 (graph half): composition-level theorems. *)
 From Coq Require Import NArith List Bool Arith Lia Permutation.
 From DBG Require Import Spec.Dna Spec.GraphIndex Packed.ExtsModel Algo.KmerHist Check.GraphCheck Check.PipelineCheck
-  Algo.Pipeline Proofs.ListFacts Proofs.DnaFacts Proofs.PipelineCheckProofs Proofs.UnitigUnique.
+  Algo.Pipeline Proofs.ListFacts Proofs.DnaFacts Proofs.PipelineCheckProofs Proofs.UnitigUnique Proofs.GraphRcProofs.
 Import ListNotations.
 Open Scope N_scope.
 
@@ -46,3 +46,22 @@ Corollary chk_assembly_same K st thr mode lreads g1 g2 :
   chk_assembly K st thr mode lreads g1 = true -> chk_assembly K st thr mode lreads g2 = true ->
   same_assembly K st mode g1 g2.
 Proof. intros H1 H2. eapply assembly_unique; apply chk_assembly_sound; eauto. Qed.
+
+(* C06, graph half, PARTIAL in the same sense: whatever pipeline variant produced them, a graph that is the assembly of
+   the reads and a graph that is the assembly of the reads with any subset reverse-complemented are the same assembly
+   (same partition of the canonical k-mers into nodes, same payloads, same links; the two sides of a palindromic
+   k-mer are identified by the canonical links).  Closed parts: the Layer-S invariance (assembly_of_flip) and the
+   uniqueness of the assembly; proviso: each pipeline output is the assembly of its input (decided per run). *)
+Theorem graph_rc_invariant_partial K thr mode fs (lreads : list lread) g g' :
+  Forall (fun r => wf_dna (fst r)) lreads ->
+  assembly_of K false thr mode lreads g -> assembly_of K false thr mode (flip_lreads fs lreads) g' ->
+  same_assembly K false mode g g'.
+Proof.
+  intros Hw Hg Hg'. apply (assembly_unique K false thr mode lreads); [exact Hg|].
+  now apply (assembly_of_flip K thr mode fs lreads g' Hw).
+Qed.
+Corollary chk_assembly_rc K thr mode fs (lreads : list lread) g g' :
+  Forall (fun r => wf_dna (fst r)) lreads ->
+  chk_assembly K false thr mode lreads g = true -> chk_assembly K false thr mode (flip_lreads fs lreads) g' = true ->
+  same_assembly K false mode g g'.
+Proof. intros Hw H1 H2. eapply graph_rc_invariant_partial; eauto using chk_assembly_sound. Qed.
